@@ -487,7 +487,7 @@ def xor_expand(pars):
 
 
 def classify(fails):
-    for key in ('ValueError although', 'no ValueError', 'raises', 'repeated', 'falsified', 'not over', 'variables, not', 'instead of', 'differ on', 'negative'):
+    for key in ('no ValueError', 'ValueError although', 'raises', 'repeated', 'falsified', 'not over', 'variables, not', 'instead of', 'differ on', 'negative'):
         if key in fails:
             return key.replace(' ', '-')
     return 'other'
